@@ -216,7 +216,7 @@ def judge(path):
 def run(tier, seed, replay):
     rep = vf.Report("C04", tier, seed)
     rep.rule = ("histories of time_leeway/claim_set/claim_del/claim_get interleaved with verifies at harness-controlled clock values: "
-                "complete cross product of 7 clock values x 8 leeways x {boundary-2..+2, negatives, 0, INT64 extremes} x 12 non-integer "
+                "complete cross product of 9 clock values (incl. -1 and -2) x 8 leeways x {boundary-2..+2, negatives, 0, INT64 extremes} x 12 non-integer "
                 "types for exp and nbf, all 13x23 expected/actual string pairs per claim, expected/actual pairs that share a prefix and differ in length by 1..131072 characters (multiples of 256 and 65536 and their neighbours, both directions), then random histories; signed (HS256) and "
                 "unsigned. distinct = distinct (relation of exp/nbf to its boundary incl. on/off, type, string-claim relation, model verdict) tuples")
     rep.assumptions = ["clock = time() supplied by the harness (drivers/vh_clock.c)", "integers beyond int64 and payloads with an escaped NUL are "
